@@ -181,11 +181,68 @@ def run(ctx):
                     f.msg = '%s<%d>::from_%s: %s' % (xty.name, n, fname, f.msg)
     ctx.count('fixed_to_generic_routing_cells', rc)
     ctx.count('fixed_to_generic_routing_cells_proved', rp)
+    # R10: fixed-width -> generic-width conversions on rounding cells of the source format (truncation at bit N with guard / sticky, saturation)
+    import rules_rounding
+    ctx.rules.append('R10 rounding cells: fixed-width -> PxE?<N> per (N, sign, source regime, exponent, rounding case at bit N)')
+    r10c = r10p = 0
+    for xty in XTYS:
+        for fname, src in FIXED.items():
+            path = prog.inherent(xty.tykey, 'from_' + fname)
+            if not path:
+                continue
+            for n in NS:
+                dst = rules_rounding.Fmt('%s<%d>' % (xty.name, n), n, xty.es, xty.tykey)
+                st = rules_rounding.check_posit_to_posit(ctx, prog, 'R10', '%s::from_%s' % (xty.name, fname), path, src, dst, False,
+                                                         gargs={'N': n}, dst_pad=32 - n, cell_label='N=%d ' % n)
+                r10c += st['cells']
+                r10p += st['proved']
+    # generic -> fixed and generic -> generic on rounding cells of the generic source format
+    g2f_c = g2f_p = g2g_c = g2g_p = 0
+    for xty in XTYS:
+        for fname, dst in FIXED.items():
+            path = prog.inherent(dst.tykey, 'from_' + xty.name.lower())
+            if not path:
+                continue
+            for n in NS:
+                if n < 3:
+                    continue
+                src = rules_rounding.Fmt('%s<%d>' % (xty.name, n), n, xty.es, xty.tykey)
+                st = rules_rounding.check_posit_to_posit(ctx, prog, 'R10', '%s::from_%s' % (dst.name, xty.name.lower()), path, src, dst, False,
+                                                         gargs={'N': n}, src_pad=32 - n, src_tykey=xty.tykey, cell_label='N=%d ' % n)
+                g2f_c += st['cells']
+                g2f_p += st['proved']
+    ms = [8, 32] if ctx.tier == 'quick' else [3, 5, 8, 16, 31, 32]
+    nsel = [3, 8, 16, 32] if ctx.tier == 'quick' else [n for n in NS if n >= 3]
+    for xty in XTYS:
+        for sfam in XTYS:
+            path = prog.inherent(xty.tykey, 'from_' + sfam.name.lower())
+            if not path:
+                continue
+            gen = [x['name'] for x in prog.bodies[path]['generics'] if x['kind'] == 'const']
+            for n in nsel:
+                for m in ms:
+                    gm = {'N': n}
+                    for nm in gen:
+                        if nm != 'N':
+                            gm[nm] = m
+                    src = rules_rounding.Fmt('%s<%d>' % (sfam.name, m), m, sfam.es, sfam.tykey)
+                    dst = rules_rounding.Fmt('%s<%d>' % (xty.name, n), n, xty.es, xty.tykey)
+                    st = rules_rounding.check_posit_to_posit(ctx, prog, 'R10', '%s::from_%s' % (xty.name, sfam.name.lower()), path, src, dst, False,
+                                                             gargs=gm, src_pad=32 - m, dst_pad=32 - n, src_tykey=sfam.tykey.replace('<N>', '<M>'),
+                                                             cell_label='M=%d N=%d ' % (m, n))
+                    g2g_c += st['cells']
+                    g2g_p += st['proved']
+    ctx.count('generic_to_fixed_rounding_cells', g2f_c)
+    ctx.count('generic_to_fixed_rounding_cells_proved', g2f_p)
+    ctx.count('generic_to_generic_rounding_cells', g2g_c)
+    ctx.count('generic_to_generic_rounding_cells_proved', g2g_p)
+    ctx.count('fixed_to_generic_rounding_cells', r10c)
+    ctx.count('fixed_to_generic_rounding_cells_proved', r10p)
     ctx.require('C14 decided cells', tot, 3000)
-    ctx.undecided['general_path'] = ('guard/sticky truncation at bit N, from_f64 by repeated halving (float arithmetic), integer paths beyond the heads, quire -> PxE2<N> rounding')
+    ctx.undecided['general_path'] = ('integer conversions beyond the guard cells; rounding cells left undecided (counted); from_f64 by repeated halving (float arithmetic) beyond the probed floats; quire -> PxE2<N> rounding')
     ctx.notes.append('PxE1::from_u32 and PxE1::from_i64 are whole-body todo!() stubs and are excluded as such')
     return LEVEL, ('Zero/NaR preservation, N == 2 and saturation cells, integer heads of every generic-width conversion decided per bound N (per (M,N) for generic-to-generic); '
-                   'to_f64 exact by bit routing per regime cell for the analysed widths.')
+                   'to_f64 exact by bit routing per regime cell; fixed <-> generic and generic -> generic posit conversions correctly rounded on rounding cells (sticky position sampled), for the analysed widths (known findings excepted).')
 
 
 def is_stub(prog, path):
